@@ -3,6 +3,7 @@ package props
 import (
 	"bytes"
 	"fmt"
+	"math"
 	"strings"
 
 	"github.com/wkhere/bcl"
@@ -92,7 +93,7 @@ func sameValue(real any, ref any) bool {
 		if !ok {
 			return false
 		}
-		return x == r || (x != x && r != r)
+		return sameFloat(x, r)
 	case string:
 		x, ok := real.(string)
 		return ok && x == r
@@ -101,6 +102,16 @@ func sameValue(real any, ref any) bool {
 		return ok && x == r
 	}
 	return false
+}
+
+// sameFloat: identical bit patterns, or both NaN. Comparing bits first keeps
+// the question out of floating-point reasoning when both sides computed the
+// value the same way.
+func sameFloat(x, r float64) bool {
+	if math.Float64bits(x) == math.Float64bits(r) {
+		return true
+	}
+	return x != x && r != r
 }
 
 func sameBlock(real bcl.Block, ref *refbcl.Block) bool {
@@ -213,4 +224,76 @@ func symValue(name string, k int, n int) any {
 		return verif.Bool(name)
 	}
 	return nil
+}
+
+// ---- source-level differential runner ----
+
+type both struct {
+	Src      string
+	ParseErr error
+	Log      string
+	Real     realRun
+	Prog     *bcl.Prog
+
+	RefSyn    *refbcl.SyntaxError
+	RefStatic []refbcl.StaticError
+	RefProg   *refbcl.Program
+	Ref       *refbcl.Result
+	Toks      []refbcl.Token
+}
+
+// placeholderValue is the concrete constant a placeholder literal denotes.
+func placeholderValue(text string) any {
+	return refbcl.LitValue(literalOf(text))
+}
+
+func literalOf(text string) *refbcl.Lit {
+	toks := refbcl.Tokens(text)
+	return &refbcl.Lit{Kind: toks[0].Kind, Text: text}
+}
+
+// runBoth compiles and runs src with the implementation and with the
+// reference. values maps placeholder literal spellings to the values that
+// replace them on both sides (constant pool patch / reference substitution).
+func runBoth(src string, values map[string]any, opts ...bcl.Option) *both {
+	b := &both{Src: src}
+	out, log := &symio.Writer{}, &symio.Writer{}
+	o := append([]bcl.Option{bcl.OptOutput(out), bcl.OptLogger(log)}, opts...)
+	p, err := bcl.Parse([]byte(src), "src", o...)
+	b.ParseErr = err
+	b.Prog = p
+	if err == nil {
+		if len(values) > 0 {
+			var phs, vals []any
+			for text, v := range values {
+				phs = append(phs, placeholderValue(text))
+				vals = append(vals, v)
+			}
+			patchConsts(p, phs, vals)
+		}
+		b.Real = executeReal(p, out, log, opts...)
+	}
+	b.Log = log.String()
+
+	b.Toks = refbcl.Tokens(src)
+	b.RefProg, b.RefSyn = refbcl.ParseProgram(b.Toks)
+	if b.RefSyn == nil {
+		b.RefStatic = refbcl.Check(b.RefProg)
+		if len(b.RefStatic) == 0 {
+			b.Ref = refbcl.Eval(b.RefProg, values)
+		}
+	}
+	return b
+}
+
+// RefAccepts reports whether the reference accepts the source.
+func (b *both) RefAccepts() bool { return b.RefSyn == nil && len(b.RefStatic) == 0 }
+
+// assertAgree: same acceptance; when accepted, same results.
+func (b *both) assertAgree(tag string) {
+	verif.Assert((b.ParseErr == nil) == b.RefAccepts(), tag+": accepted iff the reference accepts")
+	if b.ParseErr != nil || !b.RefAccepts() {
+		return
+	}
+	assertSame(tag, b.Real, b.Ref)
 }
